@@ -88,13 +88,35 @@ func write(f *sfnt.Font) (data []byte, err error, pn *guard.Panic) {
 	return
 }
 
+// nestingWriter is a destination that, when it receives its first chunk,
+// writes another font completely before returning.
+type nestingWriter struct {
+	buf, inner bytes.Buffer
+	other      *sfnt.Font
+	done       bool
+	err        error
+}
+
+func (w *nestingWriter) Write(p []byte) (int, error) {
+	if !w.done {
+		w.done = true
+		_, w.err = w.other.Write(&w.inner)
+	}
+	return w.buf.Write(p)
+}
+
+func mustWrite(f *sfnt.Font) []byte {
+	b, _, _ := write(f)
+	return b
+}
+
 func read(b []byte) (f *sfnt.Font, err error, pn *guard.Panic) {
 	pn = guard.Try(func() { f, err = sfnt.Read(bytes.NewReader(b)) })
 	return
 }
 
 func opts() genfont.Opts {
-	o := genfont.Opts{MaxGlyphs: 40}
+	o := genfont.Opts{MaxGlyphs: 40, NilMaxp: true}
 	if stats.Thorough() {
 		o.MaxGlyphs = 3000
 	}
@@ -122,6 +144,40 @@ func checkValue(t *rapid.T, c *genfont.Case) []byte {
 	b3, err, pn := write(f.Clone())
 	if pn != nil || err != nil || !bytes.Equal(b1, b3) {
 		t.Fatalf("Write(Clone) differs from Write: err=%v panic=%v", err, pn)
+	}
+	// "always the same bytes": also when the destination, on receiving the
+	// first chunk, writes a sibling font (same size, other strings) before
+	// it returns - nothing a Write call holds may be shared with another
+	// Write call
+	{
+		sib := f.Clone()
+		flip := func(r rune) rune {
+			switch {
+			case r >= 'a' && r <= 'y', r >= 'A' && r <= 'Y', r >= '0' && r <= '8':
+				return r + 1
+			}
+			return r
+		}
+		sib.FamilyName = strings.Map(flip, f.FamilyName)
+		sib.Copyright = strings.Map(flip, f.Copyright)
+		sib.Trademark = strings.Map(flip, f.Trademark)
+		sib.UnderlineThickness = f.UnderlineThickness + 1
+		w := &nestingWriter{other: sib}
+		var err error
+		pn := guard.Try(func() { _, err = f.Write(w) })
+		if pn != nil || err != nil || w.err != nil {
+			t.Fatalf("Write into a destination that writes a sibling font meanwhile: err=%v inner err=%v panic=%v\n%s", err, w.err, pn, c)
+		}
+		if !w.done {
+			t.Fatalf("Write never called the destination")
+		}
+		if !bytes.Equal(b1, w.buf.Bytes()) {
+			t.Fatalf("Write gives other bytes when a sibling font is written while the destination holds the first chunk (first difference at byte %d of %d/%d)\n%s", firstDiff(b1, w.buf.Bytes()), len(b1), w.buf.Len(), c)
+		}
+		if !bytes.Equal(w.inner.Bytes(), mustWrite(sib)) {
+			t.Fatalf("the sibling font written from inside the destination differs from the same font written alone\n%s", c)
+		}
+		stats.Label("value", "nested-write-compared")
 	}
 	g, err, pn := read(b1)
 	if pn != nil {
